@@ -241,4 +241,41 @@ func checkC04(c *Ctx) {
 	c.check("default.count-is-marked-survivors", fd.Name, fd.Decl.Pos(), okInc && numFromP,
 		"NumDefaults must be the number of disjuncts counted in the `case isDefault` branch (only surviving marked disjuncts are defaults)")
 	_ = strings.TrimSpace
+
+	// (d) duplicate elimination keeps the default mark: when a disjunct that
+	// equals an already collected one is dropped, the kept one becomes a
+	// default if the dropped one was
+	ad := c.fn(adtP, "appendDisjunct")
+	cf := newCaseFn(c, ad)
+	free := cf.g.callNodes(adtP + ".(*nodeContext).freeDisjunct")
+	var key string
+	for k := range cf.atoms() {
+		if strings.Contains(k, ".defaultMode") && strings.Contains(k, "isDefault") && strings.Contains(k, " == ") {
+			key = k
+		}
+	}
+	assign := -1
+	for _, n := range cf.g.Nodes {
+		if as, ok := n.N.(*ast.AssignStmt); ok && len(as.Lhs) == 1 && strings.HasSuffix(exprString(as.Lhs[0]), ".defaultMode") && exprString(as.Rhs[0]) == "isDefault" {
+			assign = n.ID
+		}
+	}
+	okD := key != "" && assign >= 0 && len(free) > 0
+	detD := fmt.Sprintf("test=%q assignment found=%v free sites=%d", key, assign >= 0, len(free))
+	if okD {
+		cond := cf.condNode(key)
+		// the dropped disjunct's mode is consulted on every path to its release
+		consulted := true
+		for id := range free {
+			if !cf.g.mustPassNode(id, map[int]bool{cond: true}) {
+				consulted = false
+			}
+		}
+		_, visT := cf.walkBlocked(cond, map[string]bool{key: true}, setOf(keys(free)))
+		_, visF := cf.walkBlocked(cond, map[string]bool{key: false}, setOf(keys(free)))
+		okD = consulted && visT[assign] && !visF[assign]
+		detD = fmt.Sprintf("mode consulted before every release=%v, kept disjunct marked when the dropped one was default=%v, not marked otherwise=%v", consulted, visT[assign], !visF[assign])
+	}
+	c.check("dedup.default-survives-duplicate-elimination", ad.Name, ad.Decl.Pos(), okD,
+		"when appendDisjunct drops a disjunct as a duplicate, the retained disjunct must become a default if the dropped one was (`*1 | 1` has the default 1): "+detD)
 }
